@@ -22,13 +22,13 @@ package internal
 //@ func NewStackByte
 //@   requires [C13 stack.size] size >= 0
 //@   modifies nothing
-//@   ensures result != nil && fresh(result) && len(result.data) == 0 && fresh(sliceptr(result.data))
+//@   ensures result != nil && fresh(result) && len(result.data) == 0 && fresh(sliceptr(result.data)) && allocated(sliceptr(result.data))
 
 //@ func (*stackByte).Append
 //@   requires s != nil
 //@   modifies s.data, elems(s.data)
 //@   ensures len(s.data) == old(len(s.data)) + 1 && s.data[len(s.data) - 1] == b
-//@   ensures sliceptr(s.data) == old(sliceptr(s.data)) || fresh(sliceptr(s.data))
+//@   ensures sliceptr(s.data) == old(sliceptr(s.data)) || (fresh(sliceptr(s.data)) && allocated(sliceptr(s.data)))
 
 //@ func (*stackByte).IsEmpty
 //@   requires s != nil
@@ -49,7 +49,7 @@ package internal
 //@   requires s != nil
 //@   modifies s.data, elems(s.data)
 //@   ensures [C14 pop.depth1] old(len(s.data)) <= 1 ==> len(s.data) == 0
-//@   ensures sliceptr(s.data) == old(sliceptr(s.data)) || fresh(sliceptr(s.data))
+//@   ensures sliceptr(s.data) == old(sliceptr(s.data)) || (fresh(sliceptr(s.data)) && allocated(sliceptr(s.data)))
 
 //@ func (*stackByte).Reset
 //@   requires s != nil
